@@ -187,10 +187,26 @@ def filter_case(case):
     def count(k): res['dist'][k] = res['dist'].get(k, 0) + 1
     try:
         bare_repo = case['mode'] == 'rules' and case['id'] % 7 == 6
+        if case['mode'] != 'rules' and case['id'] % 11 == 5:
+            # the repository lives under a directory whose name is not valid UTF-8 (Latin-1 é)
+            root_repo = os.path.join(root, 'caf\udce9')
+            os.makedirs(root_repo)
+            count('repository-under-a-non-utf8-directory')
+        else:
+            root_repo = root
         # every ninth case lives in a SHA-256 repository (64-digit ids in the marks file, the maps and on id-referenced M lines);
         # an id list for --strip-blobs-with-ids is defined for 40-digit ids only, so those cases stay SHA-1
         sha256 = case['mode'] != 'rules' and case['id'] % 9 == 4 and '--strip-blobs-with-ids' not in case['cli']
-        repo, marks = build_repo(case, root, bare=bare_repo, sha256=sha256)
+        repo, marks = build_repo(case, root_repo, bare=bare_repo, sha256=sha256)
+        if case['mode'] != 'rules' and case['id'] % 3 == 1 and not bare_repo and refs(repo):
+            # a commit whose message cites an earlier commit by its real id, in full and abbreviated (as `git revert` and people
+            # do): in a repository that was never filtered there is no commit-map and nothing is translated
+            tips1 = [v[0] for kk, v in sorted(refs(repo).items()) if v[1] == 'commit']
+            if tips1:
+                t = tips1[0]
+                c = git(repo, 'commit-tree', t + '^{tree}', '-p', t, input=f'This reverts commit {t}.\nsee also {t[:9]} and {t[:12].upper()}\n'.encode()).decode().strip()
+                git(repo, 'update-ref', 'refs/heads/zz-cites-before-first-run', c)
+                count('message-cites-a-real-id-before-the-first-run')
         if bare_repo:
             count('bare-repository')
         if sha256:
@@ -270,6 +286,10 @@ def filter_case(case):
                 # record what the importer is really fed: every stream-level claim is about fast-export.filtered, so the two must agree
                 tee_env = dict(GIT_ENV, PATH=make_shim(root) + os.pathsep + GIT_ENV.get('PATH', os.environ.get('PATH', '')), FRRS_SHIM_MODE='plain',
                                FRRS_SHIM_TEE=tee_path, FRRS_SHIM_IN='65536', FRRS_SHIM_OUT='65536')
+            if case['mode'] != 'rules' and case['id'] % 7 == 3 and not bare_repo:
+                # the repository named twice in different spellings: an explicit absolute --source next to the default target `.`
+                extra_cli = extra_cli + ['--source', repo]
+                count('source-spelled-as-absolute-path')
             rc, out, err, dt = run_tool(repo, ['--force'] + extra_cli + cli, env=tee_env)
             if tee_env and rc == 0 and os.path.exists(tee_path):
                 gd0 = os.path.join(repo, 'filter-repo') if bare_repo else os.path.join(repo, '.git', 'filter-repo')
@@ -329,9 +349,10 @@ def filter_case(case):
                 diff = {k: (src_refs_before.get(k), after_refs.get(k)) for k in set(src_refs_before) | set(after_refs) if src_refs_before.get(k) != after_refs.get(k)}
                 res['failures'].append(('C08', f'a neutral run into a separate target did not reproduce the refs of the source: {list(diff.items())[:3]}'))
         elif case.get('neutral'):
-            if after_refs != before_refs or head_of(repo) != before_head:
+            # HEAD is compared only when it named an existing branch before (a dangling HEAD is re-pointed at a live branch by design, C14)
+            if after_refs != before_refs or (before_head in before_refs and head_of(repo) != before_head):
                 diff = {k: (before_refs.get(k), after_refs.get(k)) for k in set(before_refs) | set(after_refs) if before_refs.get(k) != after_refs.get(k)}
-                res['failures'].append(('C08', f'a neutral run changed refs: {list(diff.items())[:3]}'))
+                res['failures'].append(('C08', f'a neutral run changed refs or HEAD: {list(diff.items())[:3]}, HEAD {before_head} -> {head_of(repo)}'))
         # C07: literal secrets are gone from every object
         if case['mode'] == 'rules':
             def literals(hx):
@@ -511,7 +532,26 @@ def dryrun_case(case):
             count('layout-clone-with-origin')
         cli = [a.replace('@AUX@', aux) for a in case['cli']]
         extra = []
+        skip_real = False
         k = case['id']
+        if k % 3 == 1 and refs(repo):
+            # a message citing an earlier commit by its real id: a first run (dry or real) translates nothing
+            tips1 = [v[0] for kk, v in sorted(refs(repo).items()) if v[1] == 'commit']
+            if tips1:
+                t = tips1[0]
+                c = git(repo, 'commit-tree', t + '^{tree}', '-p', t, input=f'This reverts commit {t}.\nsee also {t[:9]}\n'.encode()).decode().strip()
+                git(repo, 'update-ref', 'refs/heads/zz-cites-before-first-run', c)
+                count('message-cites-a-real-id')
+        if variant != 0 and k % 7 == 4 and refs(origin):
+            # origin moved on after the clone was made; a sensitive-mode dry run must not fetch (not even git's own "dry" fetch,
+            # which still downloads objects)
+            tip0 = [v[0] for kk, v in sorted(refs(origin).items()) if v[1] == 'commit'][0]
+            t0 = git(origin, 'rev-parse', tip0 + '^{tree}').decode().strip()
+            git(origin, 'update-ref', 'refs/heads/upstream-moved-on', _plumb_commit(origin, t0, [tip0], b'upstream moved on\n'))
+            git(origin, 'update-ref', 'refs/pull/7/head', _plumb_commit(origin, t0, [tip0], b'a pull request\n'))
+            extra += ['--sensitive']
+            skip_real = True      # a real sensitive run fetches first, by design: its stream is that of the mirrored repository
+            count('sensitive-dry-run-with-origin-ahead')
         if k % 5 == 3 and refs(repo):
             git(repo, 'checkout', '-q', '--detach', check=False)
             count('detached-head')
@@ -556,7 +596,7 @@ def dryrun_case(case):
             if any(f.endswith('.bundle') for f in os.listdir(os.path.join(repo, '.git', 'filter-repo'))):
                 res['failures'].append(('C11', '--dry-run --backup wrote a bundle'))
         # preview = what a real run writes and imports
-        if rc == 0:
+        if rc == 0 and not skip_real:
             dry_filtered = open(os.path.join(target or repo, '.git', 'filter-repo', 'fast-export.filtered'), 'rb').read()
             copy = os.path.join(root, 'copy')
             shutil.copytree(repo, copy, symlinks=True)
@@ -590,13 +630,13 @@ def dryrun_case(case):
                     shutil.copytree(repo, pre, symlinks=True)
                     shutil.rmtree(os.path.join(pre, '.git', 'filter-repo'), ignore_errors=True)
                     rr = refs(pre)
-                    batch = []
-                    for name, val in sorted(rr.items()):
-                        if name.startswith('refs/remotes/origin/') and name != 'refs/remotes/origin/HEAD':
-                            new = 'refs/heads/' + name[len('refs/remotes/origin/'):]
-                            if new not in rr:
-                                batch.append(f'create {new} {val[0]}')
-                            batch.append(f'delete {name} {val[0]}')
+                    # the migration plan is the Lean model's (Frrs/Migrate.lean, theorems in Props/C03): which refs of origin become
+                    # which local branches; if the tool migrated differently the two streams differ and the case is reported
+                    pairs = ','.join(f'{enhex(n.encode())}:{enhex(v[0].encode())}' for n, v in sorted(rr.items())) or '-'
+                    cpart, dpart = model().ask('migrate ' + pairs).split(' ')
+                    dec = lambda t: [] if t in ('-', '') else [tuple(unhex(x).decode() for x in it.split(':')) for it in t.split(',')]
+                    batch = [f'create {n} {h}' for n, h in dec(cpart[2:])]
+                    batch += [f'delete {n} {h}' for n, h in dec(dpart[2:]) if n != 'refs/remotes/origin/HEAD']
                     git(pre, 'symbolic-ref', '--delete', 'refs/remotes/origin/HEAD', check=False)
                     git(pre, 'update-ref', '--no-deref', '--stdin', input=('\n'.join(batch) + '\n').encode())
                     rc3, _, _, _ = run_tool(pre, ['--dry-run'] + extra + cli + (['--force'] if '--force' not in extra else []))
@@ -642,10 +682,24 @@ def backup_case(case):
         form = k % 4
         bargs = ['--backup']
         expect = None
-        if form == 1:
-            d = os.path.join(root, 'bk dir'); bargs += ['--backup-path', d]; expect = ('dir', d); count('backup-path-directory')
-        elif form == 2:
-            f = os.path.join(root, 'out', 'my.bundle'); bargs += ['--backup-path', f]; expect = ('file', f); count('backup-path-file')
+        if form in (1, 2):
+            # whether the path is a directory to put a time-stamped bundle in or the bundle file itself is decided by the Lean model
+            # of backup.rs (Frrs/Backup.lean: an existing directory, or a last component without an extension, is a directory)
+            pool = (['bk dir', 'noext', '.hidden', 'nested/deeper/dir', 'releases.d', 'plain-dir/'] if form == 1 else
+                    ['out/my.bundle', 'x.bak', 'a/b.tar.gz', 'v1.2', 'out/my.bundle', 'dot.in.dir/plain.bundle'])
+            rel = pool[k // 4 % len(pool)]
+            given = os.path.join(root, rel)
+            if rel == 'releases.d':
+                os.makedirs(given)          # exists already, and its name has an extension
+            if form == 2 and k % 8 == 2:
+                rel, given = 'out/my.bundle', os.path.join(root, 'out', 'my.bundle')      # the reuse variant below expects this path
+            if k % 16 == 9:
+                given = 'relative-backups/' + os.path.basename(rel.rstrip('/'))            # relative: resolved against the source
+            resolved = given if os.path.isabs(given) else os.path.join(repo, given)
+            kind = model().ask(f'backupdest {enhex(given.encode())} {1 if os.path.isdir(resolved) else 0}')
+            bargs += ['--backup-path', given]
+            expect = ('dir' if kind == 'dir' else 'file', resolved.rstrip('/') if kind == 'dir' else resolved)
+            count('backup-path-' + ('directory' if kind == 'dir' else 'file')); count('backup-path-form-' + rel)
         elif form == 3:
             blocker = os.path.join(root, 'blocker'); open(blocker, 'w').write('x')
             bargs += ['--backup-path', os.path.join(blocker, 'sub', 'x.bundle')]; expect = ('unwritable', None); count('backup-path-unwritable')
@@ -1419,7 +1473,7 @@ fi
 if [[ " $* " == *" fast-import "* ]] && [ -n "$FRRS_SHIM_TEE" ]; then
   exec "$R" "$@" < <(tee "$FRRS_SHIM_TEE")          # what the importer is really fed (C11)
 fi
-if [[ " $* " == *" fast-export "* ]] && [ "$MODE" = cutexport ]; then
+if [[ " $* " == *" fast-export "* ]] && [ "$MODE" = cutexport ] && [[ " $* " != *" -h "* ]]; then      # not the capability probe
   "$R" "$@" | FRRS_RELAY_ROLE=fast-export python3 "$(dirname "$0")/relay.py" "$FRRS_SHIM_CUT"
   [ -n "$FRRS_SHIM_LOG" ] && echo "FAULT fast-export rc=${FRRS_SHIM_RC:-1}" >> "$FRRS_SHIM_LOG"
   exit ${FRRS_SHIM_RC:-1}
@@ -1994,14 +2048,53 @@ def head_case(case):
                 br = (o, nw)
             if scen == 'generated-options-detached':
                 sh('git checkout -q --detach')
+        run_cwd, run_extra = repo, []
+        n_exported = None
+        if k % 9 == 7 and scen in ('tip-prune', 'tip-prune-and-rename', 'head-branch-fully-pruned') and head_of(repo):
+            # the same situation in a linked work tree of a bare clone: core.bare is true in the shared configuration, the linked
+            # work tree is nevertheless a work tree, and its git directory is <bare>/worktrees/<name>
+            bare = os.path.join(root, 'bare.git'); wt = os.path.join(root, 'linked')
+            branch = head_of(repo)[len('refs/heads/'):]
+            subprocess.run(['git', 'clone', '-q', '--bare', repo, bare], check=True, env=GIT_ENV, stdout=subprocess.DEVNULL, stderr=subprocess.DEVNULL)
+            subprocess.run(['git', '-C', bare, 'remote', 'remove', 'origin'], env=GIT_ENV, stdout=subprocess.DEVNULL, stderr=subprocess.DEVNULL)
+            p0 = subprocess.run(['git', '-C', bare, 'worktree', 'add', '-q', wt, branch], env=GIT_ENV, stdout=subprocess.DEVNULL, stderr=subprocess.DEVNULL)
+            if p0.returncode == 0:
+                repo = run_cwd = wt
+                n_exported = len(git(repo, 'rev-list', '--all').split())
+                count('linked-worktree-of-a-bare-clone')
+        elif k % 9 == 8 and scen in ('tip-prune', 'tip-prune-and-rename', 'generated-options') and head_of(repo):
+            # source and target are different repositories and their HEADs differ: the target is a copy, the source then checks
+            # out something else (another branch, or nothing: detached)
+            tgt = os.path.join(root, 'target-copy')
+            shutil.copytree(repo, tgt, symlinks=True)
+            others = sorted(r for r in refs(repo) if r.startswith('refs/heads/') and r != head_of(repo))
+            if others and k % 2 == 0:
+                subprocess.run(['git', '-C', repo, 'checkout', '-q', '-f', others[0][len('refs/heads/'):]], env=GIT_ENV, stdout=subprocess.DEVNULL, stderr=subprocess.DEVNULL)
+            else:
+                subprocess.run(['git', '-C', repo, 'checkout', '-q', '-f', '--detach'], env=GIT_ENV, stdout=subprocess.DEVNULL, stderr=subprocess.DEVNULL)
+            run_cwd, run_extra = root, ['--source', repo, '--target', tgt]
+            repo = tgt
+            count('separate-target-with-its-own-head')
         head_before = head_of(repo)
-        rc, out, err, _ = run_tool(repo, ['--force'] + cli)
+        rc, out, err, _ = run_tool(run_cwd, ['--force'] + run_extra + cli)
         if rc != 0:
             count('tool-exit-nonzero')
             return res
         count('tool-ok')
         after = refs(repo)
-        gd = os.path.join(repo, '.git', 'filter-repo', 'fast-export.filtered')
+        gitdir = git(repo, 'rev-parse', '--absolute-git-dir').decode().strip()
+        gd = os.path.join(gitdir, 'filter-repo', 'fast-export.filtered')
+        if n_exported is not None:
+            # C09 in the linked work tree: one commit-map line per exported commit, each kept one naming an existing commit
+            cm = os.path.join(gitdir, 'filter-repo', 'commit-map')
+            lines = [l.split() for l in open(cm).read().splitlines()] if os.path.exists(cm) else []
+            lines = [l for l in lines if len(l) == 2 and l[0] != 'old']
+            if len(lines) != n_exported:
+                res['failures'].append(('C09', f'[{scen}] run inside a linked work tree: commit-map has {len(lines)} lines for {n_exported} exported commits'))
+            for o, nw in lines:
+                if set(nw) != {'0'} and subprocess.run(['git', '-C', repo, 'cat-file', '-e', nw + '^{commit}'], env=GIT_ENV, stderr=subprocess.DEVNULL).returncode != 0:
+                    res['failures'].append(('C09', f'[{scen}] run inside a linked work tree: commit-map maps {o} to {nw}, which is not an existing commit'))
+                    break
         upd = branch_refs_of_stream(open(gd, 'rb').read()) if os.path.exists(gd) else []
         enc_l = lambda xs: ','.join(enhex(x if isinstance(x, bytes) else x.encode()) for x in xs) or '-'
         pred = model().ask('headtarget %s %s %s %s' % (enhex(head_before.encode()) if head_before else 'none', enc_l(sorted(after)),
